@@ -327,27 +327,30 @@ def reachable_defs(F, f, depth=4):
 def index_entry_fields(F):
     """(offset field, length field) of the in-memory index entry, by role: the fields of the aggregate pushed per entry by the
     index parser that receive the first and the second big-endian i32 read (ESRI: offset, then content length)."""
+    if getattr(F, "_index_entry_fields", None):
+        return F._index_entry_fields
     for f in F.identity_fns():
-        if f.get("kind") == "Closure":
+        if f.get("kind") == "Closure" or f.get("krate") != F.crate or factsmod.is_test_fn(f):
             continue
         d = _decls(f)
-        if not any(x.endswith("::push") for x in d) or not any("read_i32" in x for x in d):
+        if not any(x.endswith("::push") for x in d) or "Vec<" not in f["locals"][0]["ty"] or not f["locals"][0]["ty"].startswith("std::result::Result<"):
             continue
         try:
-            ps, _ = run_fn(F, f, inline=lambda g, t: False)
+            ps, _ = run_fn(F, f)           # helpers (one entry read by a private fn) are followed
         except Exception:
             continue
         for p in ps:
             for lp in [e for e in p.eff if e[0] == 'loop']:
                 for b in lp[3]:
-                    rd = [e for e in b['eff'] if e[0] == 'io' and e[1] == 'read']
+                    rd = [e for e in absint.flat_effects(b['eff']) if e[0] == 'io' and e[1] == 'read']
                     pushes = [e for e in b['eff'] if e[0] == 'push']
                     if len(rd) == 2 and len(pushes) == 1 and absint.is_agg(pushes[0][2]) and \
-                            all(e[3].get('endian') == 'BigEndian' for e in rd):
+                            all(e[3].get('endian') == 'BigEndian' and e[3].get('ty') == 'i32' for e in rd):
                         names = {}
                         for k, v in pushes[0][2][4]:
                             names[v] = k
                         a, b2 = names.get(rd[0][-1]), names.get(rd[1][-1])
                         if a and b2:
+                            F._index_entry_fields = (a, b2)
                             return a, b2
     return None, None
